@@ -496,7 +496,7 @@ def body(check, eng, shape):
         eng.observe("ops", [len(tr.wrapper_ops), len(tr.invalidate_ops)])
         return
     solver = z3.SolverFor("QF_FD")
-    solver.set("timeout", eng.claim_timeout_ms)
+    solver.set("timeout", min(eng.claim_timeout_ms, int(getattr(eng, "shape_budget_s", 10**6) * 450)))  # two queries per shape
     bad, finished, info = encode(solver, tr, callers, inv, K)
     eng.mc_states.update((callers, inv, k) for k in range(K + 1))
     eng.mc_transitions.update((callers, inv, k, a, j) for k in range(K) for a in info["names"] for j in range(len(info["progs"][a])))
@@ -516,3 +516,53 @@ def body(check, eng, shape):
         model.update({f"key_{n}": m.eval(v, model_completion=True).as_long() for n, v in info["keys"].items()})
     eng.record_claim(CLAIM, str(r), time.time() - t, model)
     eng.observe("ops", [len(tr.wrapper_ops), len(tr.invalidate_ops)])
+
+
+# ----------------------------------------------------------------------------------------
+# 5. terminal_size_cached under histories that include a resize *during* the memoized body
+
+
+def tsc_body(check, eng, shape):
+    """The real utils.terminal_size_cached around a body whose value depends on the terminal size; history of calls,
+    resizes between calls, invalidations, and resizes that hit while the body runs.  A call that was not itself
+    interrupted by a resize must return what a fresh computation gives for the current terminal size."""
+    from sx.core import sym_and, term
+
+    utils = check.utils
+
+    class TS(tuple):
+        columns = property(lambda s: s[0])
+        lines = property(lambda s: s[1])
+
+    T = [eng.int("cols0", 1), eng.int("rows0", 1)]
+    utils.get_terminal_size = lambda: TS(T)
+    runs = [0]
+    hit_during = [False]
+    step = [0]
+
+    def body():
+        runs[0] += 1
+        value = (T[0], T[1])  # the memoized fact is a function of the terminal size
+        if bool(eng.bool(f"resize_while_the_body_runs{step[0]}_{runs[0]}")):
+            T[:] = [eng.int(f"cols_mid{step[0]}_{runs[0]}", 1), eng.int(f"rows_mid{step[0]}_{runs[0]}", 1)]
+            hit_during[0] = True
+        return value
+
+    wrapped = utils.terminal_size_cached(body)
+    for i in range(shape["steps"]):
+        step[0] = i
+        op = eng.choice(f"op{i}", 3)
+        eng.step(("call", "resize", "invalidate")[op])
+        if op == 0:
+            hit_during[0] = False
+            before = runs[0]
+            got = wrapped()
+            if not hit_during[0]:
+                eng.claim(f"step {i}: the value returned equals a fresh computation for the current terminal size", sym_and(got[0] == T[0], got[1] == T[1]))
+            eng.claim(f"step {i}: the body runs at most once per call", runs[0] - before <= 1)
+        elif op == 1:
+            T[:] = [eng.int(f"cols{i}", 1), eng.int(f"rows{i}", 1)]
+        else:
+            wrapped._invalidate_terminal_size_cache()
+    eng.reachable()
+    eng.observe("runs", runs[0])
